@@ -98,6 +98,22 @@ def register(reg):
             it.raise_builtin('TypeError', 'wd:type[os.path.join of non-str]')
         return _uf(it, 'os.path.join', 'str', a, b)
 
+    @reg.lib('os.path.commonprefix')
+    def commonprefix(it, lst):
+        """A-LIB: os.path.commonprefix([a, b]) is the longest common *character* prefix."""
+        items = it.iter_values(lst)
+        if len(items) != 2 or not all(is_str(x) for x in items):
+            raise EngineError('os.path.commonprefix of other than two strings')
+        a, b = items
+        ctx = it.ctx
+        k = ctx.fresh_int('commonprefix_len')
+        na, nb = V.zint(V.slen(a)), V.zint(V.slen(b))
+        from pyvc.smt import forall_range
+        ctx.assume(z3.And(k >= 0, k <= na, k <= nb))
+        ctx.assume(forall_range(ctx, 0, k, lambda j: V.zint(V.char_at(a, j)) == V.zint(V.char_at(b, j)), 'cp'))
+        ctx.assume(z3.Or(k == na, k == nb, V.zint(V.char_at(a, k)) != V.zint(V.char_at(b, k))))
+        return V.sslice(ctx, a, 0, k)
+
     @reg.lib('os.path.exists')
     def exists(it, p):
         return _uf(it, 'os.path.exists', 'bool', p)
@@ -183,7 +199,8 @@ with tempfile.TemporaryDirectory() as top:
     os.symlink(os.path.join(out, "secret.tex"), os.path.join(base, "link.tex"))
     os.symlink(os.path.join(out, "secret.tex"), os.path.join(base, "plainlink"))
     os.symlink(out, os.path.join(base, "dirlink"))
-    names = ["../base2/secret.tex", "../base2/secret", os.path.join(sib, "secret.tex"), "link", "link.tex",
+    os.symlink(os.path.join(out, "secret.tex"), os.path.join(base, "llink.latex"))
+    names = ["llink", "sub/../llink", "../base2/secret.tex", "../base2/secret", os.path.join(sib, "secret.tex"), "link", "link.tex",
              "plainlink", "dirlink/secret.tex", "dirlink/secret", "../out/secret.tex", "../out/secret",
              os.path.join(out, "secret"), "./../base2/secret"]
     for n in names:
@@ -196,7 +213,15 @@ with tempfile.TemporaryDirectory() as top:
         t = l2t.latex_to_text(r"\input{%s}" % n)
         if MARK in t:
             reproduced("latex_to_text(\\input{%s}) leaked an outside file" % n)
-    if read_latex_file(base, True, "inside") != "INSIDE" or read_latex_file(base, True, "inside.tex") != "INSIDE":
+    if read_latex_file(base, True, "inside") != "INSIDE" or read_latex_file(base, True, "inside.tex") != "INSIDE" \
+            or read_latex_file(base + os.sep, True, "inside.tex") != "INSIDE":
         reproduced("a name that resolves inside the directory was not read", "inside-not-read")
+    rel = os.path.realpath(os.path.join(base, "inside.tex")).lstrip(os.sep)
+    for rootdir in ("/", os.path.join(base, "rootlink")):
+        if rootdir != "/":
+            os.symlink("/", rootdir)
+        if read_latex_file(rootdir, True, rel) != "INSIDE":
+            reproduced("with the filesystem root %r as input directory, %r (inside) was not read" % (rootdir, rel),
+                       "inside-not-read")
 not_reproduced()
 '''
